@@ -111,12 +111,24 @@ def oem_cases(draw):
     }
 
 
-def identities(ctx, K, Sa, Sy, x, xa, ey, tag="", A_buf=None):
-    """All identities for one (K, S_a, S_y).  Returns (tol or None, A)."""
+def identities(ctx, K, Sa, Sy, x, xa, ey, tag="", A_buf=None, args=None,
+               prec=1.0, kept=None):
+    """All identities for one (K, S_a, S_y).  Returns (tol or None, A).
+
+    K ... ey are the float64 values the references are computed from; args
+    optionally holds what typhon is given instead (other dtypes, lists) for
+    some of them.  prec multiplies the tolerance (float32 covariances are
+    inverted in single precision).  kept: results of earlier evaluations
+    [(name, returned object, private copy)], checked and extended here.
+    """
     from typhon.retrieval import oem
     m, n = K.shape
     eye = np.eye(n)
-    saved = [np.array(a, copy=True) for a in (K, Sa, Sy, x, xa, ey)]
+    args = args or {}
+    tK, tSa, tSy = args.get("K", K), args.get("Sa", Sa), args.get("Sy", Sy)
+    tx, txa, tey = args.get("x", x), args.get("xa", xa), args.get("ey", ey)
+    given = (tK, tSa, tSy, tx, txa, tey)
+    saved = [np.array(a, copy=True) for a in given]
     # --- references -------------------------------------------------------
     SyiK = np.linalg.solve(Sy, K)
     Sai = np.linalg.solve(Sa, eye)
@@ -126,8 +138,8 @@ def identities(ctx, K, Sa, Sy, x, xa, ey, tag="", A_buf=None):
     M = (M + M.T) / 2
     cSa, cSy = np.linalg.cond(Sa), np.linalg.cond(Sy)
     cN, cM = np.linalg.cond(N), np.linalg.cond(M)
-    tol = 1e-13 * cSy * (cSa + cSy + cN + cM)
-    if not np.isfinite(tol) or tol > 1e-4:
+    tol = 1e-13 * cSy * (cSa + cSy + cN + cM) * prec
+    if not np.isfinite(tol) or tol > (1e-4 if prec == 1.0 else 1e-3):
         ctx.label("ill-conditioned" + ("@history" if tag.startswith("@step") else tag))
         return None, None
     ctx.label("compared" + ("@history" if tag.startswith("@step") else tag))
@@ -141,16 +153,18 @@ def identities(ctx, K, Sa, Sy, x, xa, ey, tag="", A_buf=None):
     # --- typhon -------------------------------------------------------------
     def unchanged(after):
         for name, now, before in zip(("K", "S_a", "S_y", "x", "x_a", "e_y"),
-                                     (K, Sa, Sy, x, xa, ey), saved):
-            ctx.check(np.array_equal(now, before), "inputs-modified", lambda: (
+                                     given, saved):
+            ctx.check(np.array_equal(np.asarray(now), before)
+                      and np.asarray(now).dtype == before.dtype,
+                      "inputs-modified", lambda: (
                 "%s was changed by %s%s: before %r, after %r" % (
                     name, after, tag, before, now)))
 
-    S = oem.error_covariance_matrix(K, Sa, Sy)
+    S = oem.error_covariance_matrix(tK, tSa, tSy)
     unchanged("error_covariance_matrix")
-    G = oem.retrieval_gain_matrix(K, Sa, Sy)
+    G = oem.retrieval_gain_matrix(tK, tSa, tSy)
     unchanged("retrieval_gain_matrix")
-    A = oem.averaging_kernel_matrix(K, Sa, Sy)
+    A = oem.averaging_kernel_matrix(tK, tSa, tSy)
     unchanged("averaging_kernel_matrix")
     ctx.check(np.shape(S) == (n, n) and np.shape(G) == (n, m)
               and np.shape(A) == (n, n), "shape", lambda: (
@@ -206,18 +220,44 @@ def identities(ctx, K, Sa, Sy, x, xa, ey, tag="", A_buf=None):
     if A_buf is not None:
         A_buf[...] = A_m          # the same array object in every evaluation
         A_m = A_buf
-    se = oem.smoothing_error(x, xa, A_m)
+    se = oem.smoothing_error(tx, txa, A_m)
     ref = A_m @ (x - xa)
-    ctx.check(np.shape(se) == (n,) and fro(se - ref) <= 1e-12 * (
-        np.linalg.norm(A_m, 2) * fro(x - xa)) + 1e-300,
+    # float32 profiles are subtracted in single precision
+    f32 = any(getattr(a, "dtype", None) == np.float32 for a in (tx, txa))
+    se_tol = (1e-12 * fro(x - xa) + (2e-7 * (fro(x) + fro(xa)) if f32 else 0))
+    ctx.check(np.shape(se) == (n,) and fro(se - ref) <= (
+        np.linalg.norm(A_m, 2) * se_tol) + 1e-300,
         "smoothing_error", lambda: "got %r expected %r" % (se, ref))
-    rn = oem.retrieval_noise(K, Sa, Sy, ey)
+    rn = oem.retrieval_noise(tK, tSa, tSy, tey)
     ref = G_m @ ey
     ctx.check(np.shape(rn) == (n,) and fro(rn - ref) <= (
         tol + 1e-13) * np.linalg.norm(G_m, 2) * fro(ey) + 1e-300,
         "retrieval_noise", lambda: "got %r expected %r; %s" % (
             rn, ref, info()))
     unchanged("smoothing_error / retrieval_noise")
+    # results are the caller's: new arrays that no later call changes
+    results = [("S", S), ("G", G), ("A", A), ("smoothing_error", se),
+               ("retrieval_noise", rn)]
+    others = [("input " + nm, a) for nm, a in zip(
+        ("K", "S_a", "S_y", "x", "x_a", "e_y"), given)
+        if isinstance(a, np.ndarray)] + [("input A", A_m)]
+    if kept is not None:
+        for name, obj, cp in kept:
+            ctx.check(np.array_equal(obj, cp), "result/changed-by-later-call",
+                      lambda: "%s returned earlier was %r, now it is %r (%s)"
+                      % (name, cp, obj, tag))
+        others = others + [("earlier " + nm, o) for nm, o, _ in kept]
+    for i, (name, obj) in enumerate(results):
+        if not isinstance(obj, np.ndarray):
+            continue
+        for oname, other in others + results[:i]:
+            ctx.check(not (isinstance(other, np.ndarray)
+                           and np.shares_memory(obj, other)),
+                      "result/shares-memory", lambda: (
+                          "%s shares memory with %s%s" % (name, oname, tag)))
+    if kept is not None:
+        kept.extend((name + tag, obj, np.array(obj, copy=True))
+                    for name, obj in results if isinstance(obj, np.ndarray))
     return tol, np.asarray(A)
 
 
@@ -248,7 +288,8 @@ def check_oem(case, ctx):
                   or np.count_nonzero(Sy - np.diag(np.diag(Sy))) > 0)
     if correlated:
         ctx.label("correlated")
-    compared, A = identities(ctx, K, Sa, Sy, x, xa, ey)
+    kept = []
+    compared, A = identities(ctx, K, Sa, Sy, x, xa, ey, kept=kept)
     if compared is not None and (n != m or correlated):
         ctx.nontrivial = True
 
@@ -261,7 +302,8 @@ def check_oem(case, ctx):
         last = None
         for eps in EPS_SEQ:
             Sy_e = Sy * eps
-            tol, A = identities(ctx, K, Sa, Sy_e, x, xa, ey, "@limit")
+            tol, A = identities(ctx, K, Sa, Sy_e, x, xa, ey, "@limit",
+                                     kept=kept)
             if tol is None:
                 continue
             KtSiK = K.T @ np.linalg.solve(Sy_e, K)
@@ -286,7 +328,8 @@ def check_oem(case, ctx):
         last = None
         for eps in EPS_SEQ:
             Sa_e = Sa * eps
-            tol, A = identities(ctx, K, Sa_e, Sy, x, xa, ey, "@limit")
+            tol, A = identities(ctx, K, Sa_e, Sy, x, xa, ey, "@limit",
+                                     kept=kept)
             if tol is None:
                 continue
             bound = (np.linalg.norm(Sa_e, 2) * np.linalg.norm(K, 2) ** 2
@@ -366,9 +409,14 @@ def check_history(case, ctx):
     if "F" in lay.values() or "T" in lay.values():
         ctx.label("layout-fortran-ordered-input")
 
+    kept = []          # results of the earlier steps (objects + copies)
+
     def evaluate(tag):
+        before = len(kept)
         tol, _ = identities(ctx, obj["K"], obj["Sa"], obj["Sy"], obj["x"],
-                            obj["xa"], obj["ey"], tag, A_buf)
+                            obj["xa"], obj["ey"], tag, A_buf, kept=kept)
+        if before and len(kept) > before:
+            ctx.label("earlier-results-rechecked")
         return tol is not None
 
     compared = evaluate("@step0")
@@ -389,10 +437,103 @@ def check_history(case, ctx):
         compared = now
 
 
+# --------------------------------------------------------------------------
+# other dtypes and containers
+# --------------------------------------------------------------------------
+KTYPES = {"selection": ["bool", "uint8", "int8", "int32", "int64", "float32"],
+          "small-int": ["int8", "int32", "int64", "float32", "float64"],
+          "halves": ["float32", "float16", "float64"]}
+
+
+@st.composite
+def dtype_cases(draw):
+    n = draw(st.integers(1, 6))
+    m = draw(st.integers(1, 8))
+    kkind = draw(st.sampled_from(["selection", "selection", "small-int",
+                                  "halves"]))
+    el = {"selection": st.integers(0, 1), "small-int": st.integers(-3, 3),
+          "halves": st.integers(-8, 8).map(lambda k: k / 2.0)}[kkind]
+    K = draw(st.lists(el, min_size=m * n, max_size=m * n))
+    if kkind == "selection" and not any(K):
+        K[0] = 1
+    vec = st.floats(-10.0, 10.0, allow_nan=False)
+    ivec = st.integers(-10, 10).map(float)
+    x_form = draw(st.sampled_from(["f64", "f32", "int"]))
+    ey_form = draw(st.sampled_from(["f64", "list", "f32", "int"]))
+    return {
+        "n": n, "m": m, "K": [float(v) for v in K], "K_kind": kkind,
+        "K_type": draw(st.sampled_from(KTYPES[kkind])),
+        # covariances with non-integer entries and variances below 1
+        "Sa": draw(GM.spd(n, scales=(-1.0, 1.0)))["matrix"],
+        "Sy": draw(GM.spd(m, scales=(-1.0, 1.0)))["matrix"],
+        "Sa_form": draw(st.sampled_from(["f64", "f64", "list", "f32"])),
+        "Sy_form": draw(st.sampled_from(["f64", "f64", "list", "f32"])),
+        "x": draw(st.lists(ivec if x_form == "int" else vec,
+                           min_size=n, max_size=n)),
+        "xa": draw(st.lists(ivec if x_form == "int" else vec,
+                            min_size=n, max_size=n)),
+        "ey": draw(st.lists(ivec if ey_form == "int" else vec,
+                            min_size=m, max_size=m)),
+        "x_form": x_form,
+        "xa_form": draw(st.sampled_from(
+            ["same", "list"] if x_form != "int" else ["same"])),
+        "ey_form": ey_form,
+    }
+
+
+def in_form(values, form, shape):
+    a = np.array(values, dtype=float).reshape(shape)
+    if form == "f32":
+        return a.astype(np.float32)
+    if form == "int":
+        return a.astype(np.int64)
+    if form == "list":
+        return a.tolist()
+    return a
+
+
+def check_dtypes(case, ctx):
+    n, m = case["n"], case["m"]
+    tK = np.array(case["K"], dtype=float).reshape(m, n).astype(
+        case["K_type"])
+    args = {
+        "K": tK,
+        "Sa": in_form(case["Sa"], case["Sa_form"], (n, n)),
+        "Sy": in_form(case["Sy"], case["Sy_form"], (m, m)),
+        "x": in_form(case["x"], case["x_form"], (n,)),
+        "ey": in_form(case["ey"], case["ey_form"], (m,)),
+    }
+    args["xa"] = in_form(case["xa"], case["x_form"] if case["xa_form"] ==
+                         "same" else "list", (n,))
+    ctx.label("K-" + case["K_kind"], "K-dtype-" + case["K_type"],
+              "Sa-given-as-" + case["Sa_form"],
+              "Sy-given-as-" + case["Sy_form"],
+              "x-given-as-" + case["x_form"], "ey-given-as-" + case["ey_form"])
+    if case["xa_form"] == "list":
+        ctx.label("xa-given-as-list")
+    if tK.dtype.kind in "biu":
+        ctx.label("K-integer-or-bool")
+    # the references are computed in float64 from the values handed over
+    num = {k: np.asarray(v, dtype=float) for k, v in args.items()}
+    f32cov = "f32" in (case["Sa_form"], case["Sy_form"])
+    if f32cov:
+        ctx.label("float32-covariance(single-precision-tolerance)")
+    kept = []
+    for rep in range(2):
+        tol, _ = identities(
+            ctx, num["K"], num["Sa"], num["Sy"], num["x"], num["xa"],
+            num["ey"], "@dtypes", args=args,
+            prec=2.0 ** 29 if f32cov else 1.0, kept=kept)
+    if tol is not None:
+        ctx.nontrivial = True
+
+
 def suites(tier):
     return [
         Suite("identities", check_oem, strategy=oem_cases(),
-              examples={"quick": 1700, "thorough": 10000}),
+              examples={"quick": 1500, "thorough": 10000}),
         Suite("history", check_history, strategy=history_cases(),
               examples={"quick": 300, "thorough": 3000}),
+        Suite("dtypes", check_dtypes, strategy=dtype_cases(),
+              examples={"quick": 250, "thorough": 2500}),
     ]
